@@ -41,12 +41,12 @@ def cls? : String → Option Cls
   | "tracker" => some .tracker | "channels" => some .channels | "slot" => some .slot
   | "monitor" => some .monitor | "monitor_decode" => some .monitorDecode
   | "node_state" => some .nodeState | "validator_factory" => some .validatorFactory
-  | "store" => some .store | _ => none
+  | "store" => some .store | "approver" => some .approver | _ => none
 
 def clsName : Cls → String
   | .tracker => "tracker" | .channels => "channels" | .slot => "slot" | .monitor => "monitor"
   | .monitorDecode => "monitor_decode" | .nodeState => "node_state"
-  | .validatorFactory => "validator_factory" | .store => "store"
+  | .validatorFactory => "validator_factory" | .store => "store" | .approver => "approver"
 
 def lockName (l : Lock) : String :=
   match l.cls with
@@ -77,6 +77,14 @@ def reqKind? : String → Option Kind
   | "signonchain" => some .unchecked_sign_onchain_tx
   | "addblock" => some .add_block
   | "rmblock" => some .remove_block
+  | "persistall" => some .persist_all
+  | "rprekeysend" => some .add_keysend
+  | "rpreinvoice" => some .add_invoice
+  | "rnewchan" => some .new_channel
+  | "rforget" => some .forget_channel
+  | "rtipinfo" => some .get_heartbeat
+  | "rheartbeat" => some .get_heartbeat
+  | "hsignlocal" => some .channel_request
   | s => Kind.ofString? s
 
 def allowed (ks : List Kind) (h c : Cls) : Bool := ks.any (fun k => (edges k).contains (h, c))
